@@ -150,6 +150,8 @@ def _unit_facts(ctx, fi, app, lo, hi):
         out.append(z3.Implies(hi == lo + 1, app == z3.If(_piece_at(fi, lo), lo, lo - 1)))
         out += [z3.Implies(app >= lo, bf) for bf in _body_facts_at(fi, app)]
     elif fi.kind == "first":
+        # peel the first index: F(lo,hi) = lo if cond(lo) else F(lo+1,hi)   (for lo < hi)
+        out.append(z3.Implies(lo < hi, app == z3.If(_piece_at(fi, lo), lo, fi.fn(lo + 1, hi))))
         out.append(z3.Or(z3.And(app >= lo, app <= hi), z3.And(hi < lo, app == hi)))
         out.append(z3.Implies(z3.And(app >= lo, app < hi), z3.substitute(fi.piece, (fi.K0, app))))
         out.append(z3.Implies(hi <= lo, app == hi))
@@ -237,7 +239,8 @@ def discharge(ctx, ob, timeout_ms=10000, portfolio=True):
     inst += aux_instances(ctx, hyps + [ob.goal] + inst)
     inst += at_instances(hyps + [ob.goal] + inst)
     full_ms = timeout_ms
-    first_ms = min(timeout_ms, 3000) if portfolio else timeout_ms
+    # in-process z3 first (cheap obligations never reach the CLI race); on an escalated retry it gets half the budget
+    first_ms = (min(timeout_ms, 3000) if timeout_ms <= 10000 else timeout_ms // 2) if portfolio else timeout_ms
     s = make_solver(hyps + inst, ob.goal, first_ms)
     r = s.check()
     if r != z3.unsat:
@@ -254,6 +257,21 @@ def discharge(ctx, ob, timeout_ms=10000, portfolio=True):
     if r != z3.unsat and literal_case_split(hyps + inst, ob.goal, first_ms):
         r = z3.unsat
         ob.notes = list(ob.notes) + ["case split over a finite disjunction of literal values"]
+    if r == z3.sat:
+        # a model that does not falsify the goal is not a counterexample (seen with ite-valued sequence terms)
+        try:
+            m = s.model()
+            # accepted only if the model evaluates the goal to false and every hypothesis to true (literally)
+            bad = not z3.is_false(m.eval(ob.goal, model_completion=True)) or \
+                any(not z3.is_true(m.eval(h, model_completion=True)) for h in hyps + inst)
+            if bad:
+                r = z3.unknown
+                ob.notes = list(ob.notes) + ["solver model rejected: it does not evaluate the hypotheses to true and the goal to false"]
+        except z3.Z3Exception:
+            pass
+    if r != z3.unsat and goal_ite_split(hyps + inst, ob.goal, first_ms):
+        r = z3.unsat
+        ob.notes = list(ob.notes) + ["Shannon expansion of an if-then-else in the goal"]
     ob.seconds = time.time() - t0
     ob.backend = "z3-" + z3.get_version_string()
     if r == z3.unsat:
@@ -281,9 +299,9 @@ def discharge(ctx, ob, timeout_ms=10000, portfolio=True):
             ob.status = "discharged"
             ob.backend = label
         elif verdict == "sat":
-            ob.status = "failed"
-            ob.backend = label
-            ob.model_text = f"sat ({label}); no model extracted"
+            # a `sat` of a CLI back end comes without a model we could validate (z3 4.8.12 answers `sat` on some
+            # valid goals over ite-valued sequences): undecided, never a refutation
+            ob.model_text = f"sat ({label}) without a validated model: treated as unknown"
     return ob
 
 
@@ -408,6 +426,50 @@ def equal_by_cases(hyps, ta, tb, budget):
     return True
 
 
+def goal_ite_split(hyps, goal, timeout_ms, depth=0):
+    """Shannon expansion of an if-then-else at the top of one side of an equality goal (or of the goal itself):
+    prove `c -> goal[then]` and `not c -> goal[else]` separately. z3's sequence solver answers `sat` (with a model
+    that does not falsify the goal) or `unknown` on some goals of the form ite(c, xs, xs ++ [y]) == fold(...),
+    while both cases are immediate."""
+    if depth > 3:
+        return False
+    g = goal
+    target = None
+    if z3.is_app(g) and g.decl().kind() == z3.Z3_OP_ITE:
+        c, a, b = g.children()
+        cases = [(c, a), (z3.Not(c), b)]
+    elif z3.is_eq(g):
+        cases = None
+        for i in (0, 1):
+            t = g.arg(i)
+            # look through one constructor application (VList(ite(...)))
+            inner = t
+            wrap = None
+            if z3.is_app(t) and t.num_args() == 1 and t.decl().kind() == z3.Z3_OP_DT_CONSTRUCTOR:
+                inner, wrap = t.arg(0), t.decl()
+            if z3.is_app(inner) and inner.decl().kind() == z3.Z3_OP_ITE:
+                c, a, b = inner.children()
+                mk = (lambda x, wrap=wrap: wrap(x)) if wrap is not None else (lambda x: x)
+                other = g.arg(1 - i)
+                cases = [(c, mk(a) == other), (z3.Not(c), mk(b) == other)]
+                break
+        if cases is None:
+            return False
+    else:
+        return False
+    for cond, sub in cases:
+        s = z3.Solver()
+        s.set("timeout", timeout_ms)
+        for h in hyps:
+            s.add(h)
+        s.add(cond)
+        s.add(z3.Not(sub))
+        if s.check() != z3.unsat:
+            if not goal_ite_split(list(hyps) + [cond], simp(sub), timeout_ms, depth + 1):
+                return False
+    return True
+
+
 def literal_case_split(hyps, goal, timeout_ms):
     """If some hypothesis is `x == l1 or ... or x == ln` (literals), prove the goal for each value of x separately
     after substituting it (the simplifier then folds string slices, table lookups etc.)."""
@@ -485,6 +547,17 @@ def pointwise_lemmas(ctx, hyps, terms, timeout_ms):
     out = []
     K = z3.Int("K!pw")
     t_end = time.time() + max(60, timeout_ms / 1000 * 6)      # whole-lemma budget per obligation
+    # minimality of FIRST folds at the symbolic point: no index below the first exit index satisfies the exit condition
+    first_min = []
+    for n in names:
+        fi = ctx.folds[n]
+        if fi.kind == "first":
+            seen_ids = set()
+            for a in apps[n]:
+                if a.get_id() in seen_ids:
+                    continue
+                seen_ids.add(a.get_id())
+                first_min.append(z3.Implies(z3.And(a.arg(0) <= K, K < a), z3.Not(z3.substitute(fi.piece, (fi.K0, K)))))
     for i, a in enumerate(names):
         for b in names[i + 1:]:
             fa, fb = ctx.folds[a], ctx.folds[b]
@@ -505,6 +578,8 @@ def pointwise_lemmas(ctx, hyps, terms, timeout_ms):
                 for h in hyps:
                     s.add(h)
                 s.add(lo == y.arg(0), hi == y.arg(1))
+                for fm in first_min:
+                    s.add(fm)
                 pa, pb = z3.substitute(fa.piece, (fa.K0, K)), z3.substitute(fb.piece, (fb.K0, K))
                 for f in fa.facts:
                     s.add(z3.substitute(f, (fa.K0, K)))
